@@ -195,4 +195,11 @@ theorem inplace_resume {cf : Cfg} {e : Env} {blob : Bytes} {files : List Bytes} 
         (fun p => readUpTo t0 (e.startOf p) (e.sizeOf p) ≠ chunkData e blob p)).length :=
   Asm.inplace_resume hwf hst hnull hb hlen hne
 
+/-- **regenerated obligation**: `desync extract` returns the assembly's error before it does anything else with
+    the result (printing the statistics must not replace a failure by exit status 0) -/
+theorem gen_cmd_extract_reports_failure :
+    Gen.cmdExtractTail = ["if:err!=nil:return err", "if:opt.printStats:return printJSON(…)", "return nil"] ∧
+    Gen.site_shape_cmd_extract_tail_found = true := by
+  decide
+
 end Desync.C01
